@@ -176,6 +176,18 @@ def D8():
     return n.ttc['name'] == 'Changed', f'changing the copy ttc changed the original: {n.ttc["name"]}'
 
 
+def D4():
+    from maltoolbox.language.compiler import MalCompiler
+    spec = MalCompiler().compile(os.path.join(HERE, 'lang_d4.mal'))
+    before = copy.deepcopy(spec)
+    lg = LanguageGraph(spec)
+    changed = spec != before
+    counts = [len(lg._get_attacks_for_asset_type('LeafOne')['s']['reaches']['stepExpressions'])
+              for _ in range(3)]
+    return changed or len(set(counts)) != 1 or counts[0] != 2, \
+        f'spec modified by LanguageGraph(): {changed}; #expressions of LeafOne.s on 3 lookups: {counts} (expected 2,2,2)'
+
+
 if __name__ == '__main__':
     ids = sys.argv[1:] or sorted((k for k in globals() if k[0] == 'D' and k[1:].isdigit()),
                                  key=lambda s: int(s[1:]))
